@@ -218,6 +218,9 @@ def make_pipefunc(fd: dict, tag: str = ""):
                  "resources_scope": "map"}
     if fd.get("picker") and len(outs) > 1 and not fd.get("retnone"):
         reskw["output_picker"] = pick_by_name
+    if fd.get("elemscope"):          # static resources evaluated per element (learners are then split per element)
+        from pipefunc.resources import Resources
+        reskw.update({"resources": Resources(cpus=1), "resources_scope": "element"})
     if fd.get("hook"):
         def hook(func, result, kwargs, _fid=fid, _fd=fd):
             # post_execution_hook(func, result, kwargs): logged as an event of its own (kwargs arrive under the ORIGINAL names)
